@@ -115,7 +115,10 @@ func (fsm *FSM) applyRobustMessage(msg *robust.Message, i *ircserver.IRCServer, 
 		} else {
 			ircmsg := irc.ParseMessage(msg.Data)
 			reply := i.ProcessMessage(msg, ircmsg)
-			i.SetLastProcessed(robust.Id{Id: msg.Session.Id})
+			// The id of the message, not of its session: once this message is
+			// processed, every older session which we do not know is gone for
+			// good (ErrNoSuchSession), not merely unseen so far.
+			i.SetLastProcessed(robust.Id{Id: msg.Id.Id})
 			sendMessages(reply, msg.Session, msg.Session.Id, o)
 			i.MaybeDeleteSession(msg.Session)
 		}
